@@ -97,6 +97,12 @@ def cases(tier, seed):
         out.append({"name": "proxy.state/%s" % st, "kind": "state", "state": st})
     out.append({"name": "proxy.pending/nonblocking", "kind": "pending"})
     out.append({"name": "nocancel", "kind": "nocancel"})
+    # f is a future of this library whose work ends on another thread while f is being wrapped (both sides suspended)
+    for layers in (["map"], ["flat_map"], ["throttle"], ["timeout"]):
+        for how in ("value", "exc"):
+            for op in ("f_proxy", "f_nocancel"):
+                out.append({"name": "wrap-nested/%s/%s/%s" % (">".join(layers), how, op), "kind": "attach-nested", "layers": layers, "how": how,
+                            "direction": "end-first", "op": op, "budget": 150 if tier == "quick" else 1500})
     return out
 
 
@@ -436,6 +442,10 @@ def run_nocancel(case, res):
 
 def run_case(case, res):
     k = case["kind"]
+    if k == "attach-nested":
+        # (C03's scenario: the wrapper is the "chained" future; it must be done once f is)
+        from . import c03
+        return c03.run_attach_nested(case, res)
     if k == "ops":
         run_ops(case, res)
     elif k == "state":
